@@ -140,11 +140,14 @@ class SlotRef:
         self._component_vars = {
             key: context[key] for key in (_COMPONENT_CONTEXT_KEY, "component_vars") if key in context
         }
+        # Same for the render context, which holds the `{% block %}` overrides of the component's template.
+        self._render_context_layer = context.render_context.dicts[-1]
 
     # Render the slot when the template coerces SlotRef to string
     def __str__(self) -> str:
         with self._context.update(self._component_vars):
-            return mark_safe(self._slot.nodelist.render(self._context))
+            with self._context.render_context.push(self._render_context_layer):
+                return mark_safe(self._slot.nodelist.render(self._context))
 
 
 class SlotIsFilled(dict):
